@@ -501,7 +501,7 @@ PROPS = {
     "C06": {
         "props_module": "Aldrin.Props.C06",
         "namespace": "Aldrin.Client",
-        "level": "partial",
+        "level": "proof",
         "run": generic_run("sys", {"cs", "cr", "cend", "cfail"}, {"C06"}, {"quick": (700, 6), "thorough": (9000, 14)},
                            canon=None, scenario_cmd="cnew", full_canon=lambda q, line: line, extra_args=["A", "B", "A", "B", "F"],
                            rule="real Clients driven through the public API (objects, services with a serving task, proxies, calls with and "
@@ -524,7 +524,7 @@ PROPS = {
     "C15": {
         "props_module": "Aldrin.Props.C15",
         "namespace": "Aldrin.Client",
-        "level": "partial",
+        "level": "proof",
         "run": generic_run("sys", {"cs", "cr", "cend", "cfail"}, {"C15"}, {"quick": (700, 6), "thorough": (9000, 14)},
                            canon=None, scenario_cmd="cnew", full_canon=lambda q, line: line, extra_args=["F", "A", "F"],
                            rule="scenario F: a real broker and 2-4 real clients under a PRNG-chosen schedule; one client is stopped by one of "
@@ -542,7 +542,8 @@ PROPS = {
     "C17": {
         "props_module": "Aldrin.Props.C17",
         "namespace": "Aldrin.Schema.Span",
-        "level": "partial",
+        "level": "other",
+        "explanation": "proof obligations (Lean theorems about the doc-link position arithmetic, kernel-checked) plus differential runs of the grammar model and implementation-only panic / determinism oracles over the whole pipeline; see rule",
         "run": generic_run("front", {"sast", "slc"}, {"C17"}, {"quick": (1500, 6), "thorough": (25000, 14)},
                            canon=None, extra_args=["/repo"],
                            rule="sources: token soups over the grammar's alphabet (keywords, punctuation, literals, comments, odd white space, "
